@@ -33,7 +33,7 @@ LATT = [v / 2.0 for v in range(-2, 18)]
 
 def plan(tier, seed):
     specs = [{"kind": "exhaustive", "part": p, "parts": 8, "maxlen": 6 if tier == "quick" else 8} for p in range(8)]
-    n = 10000 if tier == "quick" else 300000
+    n = 24000 if tier == "quick" else 1500000
     specs += [{"kind": "random", "start": p * (n // NSHARDS), "count": n // NSHARDS} for p in range(NSHARDS)]
     return specs
 
